@@ -939,6 +939,7 @@ STATIC_FILES = [
 ]
 
 
+
 def gen_state(read, num):
     """The state the code keeps: the fields (name: type) of every struct that a model carries as state, and every
     `static` / `thread_local!` / `OnceLock` / `LazyLock` / `lazy_static!` item in the modelled source files.  The models'
@@ -1008,10 +1009,632 @@ def gen_state(read, num):
     return lines, broken
 
 
+def _struct_fields(src, name):
+    """{field: type} of `pub struct <name> { pub f: T, ... }` (None if not found)."""
+    m = re.search(r"pub\s+struct\s+" + name + r"\s*\{(.*?)\n\}", src, re.S)
+    if not m:
+        return None
+    body = re.sub(r"//[^\n]*", "", m.group(1))
+    return dict(re.findall(r"(?:pub\s+)?([a-z_]+)\s*:\s*([A-Za-z0-9_<>]+)\s*,", body))
+
+
+def gen_c20(read, num):
+    """C20 (Elixir wrappers) part: for every struct wrapper of range.rs / map_set.rs / date_time.rs the module atom, the keys
+    its `From<T> for OwnedTerm` inserts (in order) and the integer keys its `from_term` reads with the Rust type of the field
+    each goes to; for exceptions.rs the keys of `exception_base` and of every `to_term`; the limits of the checked
+    constructors (`try_new`), the leap-year rule, the day table, the precision clamp, and the `Elixir.` prefix."""
+    broken = []
+    lines = []
+    wrappers = [("range.rs", "ElixirRange", "RANGE"), ("map_set.rs", "ElixirMapSet", "MAPSET"), ("date_time.rs", "ElixirDate", "DATE"),
+                ("date_time.rs", "ElixirTime", "TIME"), ("date_time.rs", "ElixirNaiveDateTime", "NAIVE"),
+                ("date_time.rs", "ElixirDateTime", "DATETIME")]
+    int_ranges = {"i64": (-(1 << 63), (1 << 63) - 1), "i32": (-(1 << 31), (1 << 31) - 1), "u8": (0, 255), "u32": (0, (1 << 32) - 1)}
+    srcs = {}
+    for f in ("range.rs", "map_set.rs", "date_time.rs", "exceptions.rs", "builders.rs"):
+        srcs[f] = read("crates/edp_elixir_terms/src/" + f)
+        if srcs[f] is None:
+            broken.append(f"{f} missing")
+    for f, ty, tag in wrappers:
+        src = srcs.get(f)
+        module, keys, reads = "", [], []
+        if src is not None:
+            body = _fn_body(src, r"impl\s+From<" + ty + r">\s+for\s+OwnedTerm\s*\{")
+            if body is None:
+                broken.append(f"{f}: impl From<{ty}> for OwnedTerm not found")
+            else:
+                b = _strip_ws(body)
+                ins = re.findall(r"[a-z_]*map\.insert\(OwnedTerm::Atom\(Atom::new\(\"([^\"]*)\"\)\),", b)
+                keys = ins
+                if b.count("map.insert(") != len(ins):
+                    broken.append(f"{f}: From<{ty}>: an insert whose key is not a literal atom")
+                mm = re.search(r"Atom::new\(\"__struct__\"\)\),OwnedTerm::Atom\(Atom::new\(\"([^\"]*)\"\)\)", b)
+                if mm:
+                    module = mm.group(1)
+                else:
+                    broken.append(f"{f}: From<{ty}>: __struct__ value not found")
+            impl = _fn_body(src, r"impl\s+" + ty + r"\s*\{")
+            ft = _fn_body(impl or "", r"pub\s+fn\s+from_term\s*\(")
+            if ft is None:
+                broken.append(f"{f}: {ty}::from_term not found")
+            else:
+                b = _strip_ws(ft)
+                mm = re.search(r"elixir_struct_module\(\)!=Some\(\"([^\"]*)\"\)\{returnNone;\}", b)
+                if not mm or mm.group(1) != module:
+                    broken.append(f"{f}: {ty}::from_term does not reject a foreign __struct__ with `!= Some(\"{module}\")`")
+                fields = _struct_fields(src, ty)
+                if fields is None:
+                    broken.append(f"{f}: pub struct {ty} not found")
+                    fields = {}
+                for var, key in re.findall(r"let([a-z_]+)=integer_field\(map,\"([^\"]*)\"\)\?;", b):
+                    t = fields.get(var)
+                    if t not in int_ranges:
+                        broken.append(f"{f}: {ty}::from_term reads `{key}` into `{var}` whose type is not a known integer type")
+                        continue
+                    reads.append((key, t))
+                if "integer_field(" in b and b.count("integer_field(") != len(reads):
+                    broken.append(f"{f}: {ty}::from_term: an integer_field call of another shape")
+                if tag in ("TIME", "NAIVE", "DATETIME"):
+                    if not re.search(r"ifletSome\(us\)=map\.get\(&OwnedTerm::Atom\(Atom::new\(\"microsecond\"\)\)\)\{let\(val,prec\)=us\.as_2_tuple\(\)\?;\(integer\(val\)\?,integer\(prec\)\?\)\}else\{\(0,0\)\}", b):
+                        broken.append(f"{f}: {ty}::from_term: the microsecond reader changed shape")
+                    if fields.get("microsecond_value") != "u32" or fields.get("microsecond_precision") != "u8":
+                        broken.append(f"{f}: {ty}: microsecond field types changed")
+        lines.append(f"def C20_{tag}_MODULE : List UInt8 := {_bytes_lit(module)}")
+        lines.append(f"def C20_{tag}_KEYS : List (List UInt8) := [" + ", ".join(_bytes_lit(k) for k in keys) + "]")
+        lines.append(f"def C20_{tag}_INT_FIELDS : List (List UInt8 × Int × Int) := [" +
+                     ", ".join(f"({_bytes_lit(k)}, {int_ranges[t][0]}, {int_ranges[t][1]})" for k, t in reads) + "]")
+    # exceptions
+    ex = srcs.get("exceptions.rs")
+    base_keys, exc = [], []
+    prefix = ""
+    if ex is not None:
+        body = _fn_body(ex, r"fn\s+exception_base\s*\(")
+        if body is None:
+            broken.append("exceptions.rs: fn exception_base not found")
+        else:
+            base_keys = re.findall(r"map\.insert\(OwnedTerm::Atom\(Atom::new\(\"([^\"]*)\"\)\),", _strip_ws(body))
+        for m in re.finditer(r"impl\s+ElixirExceptionExt\s+for\s+([A-Za-z]+)\s*\{", ex):
+            name = m.group(1)
+            body = _fn_body(ex[m.start():], r"impl\s+ElixirExceptionExt\s+for\s+" + name + r"\s*\{")
+            b = _strip_ws(body or "")
+            mm = re.search(r"fnmodule_name\(\)->&'staticstr\{\"([^\"]*)\"\}", b)
+            if not mm:
+                broken.append(f"exceptions.rs: {name}::module_name not found")
+                continue
+            ks = []
+            for k in re.findall(r"map\.insert\(OwnedTerm::Atom\(Atom::new\(\"([^\"]*)\"\)\),", b):
+                if k not in ks:
+                    ks.append(k)
+            if "exception_base(Self::module_name())" not in b:
+                broken.append(f"exceptions.rs: {name}::to_term no longer starts from exception_base(Self::module_name())")
+            exc.append((name, mm.group(1), ks))
+        if not exc:
+            broken.append("exceptions.rs: no impl ElixirExceptionExt found")
+        mm = re.search(r"strip_prefix\(\"([^\"]*)\"\)", _fn_body(ex, r"fn\s+without_elixir_prefix\s*\(") or "")
+        if mm:
+            prefix = mm.group(1)
+        else:
+            broken.append("exceptions.rs: without_elixir_prefix: strip_prefix(\"…\") not found")
+        if ex.count('format!("Elixir.{') < 2:
+            broken.append("exceptions.rs: to_term no longer writes module atoms with format!(\"Elixir.{…}\")")
+    lines.append("def C20_EXC_BASE_KEYS : List (List UInt8) := [" + ", ".join(_bytes_lit(k) for k in base_keys) + "]")
+    lines.append("def C20_EXCEPTIONS : List (List UInt8 × List (List UInt8)) := [" +
+                 ", ".join(f"({_bytes_lit(mod)}, [" + ", ".join(_bytes_lit(k) for k in ks) + "])" for _, mod, ks in exc) + "]")
+    lines.append(f"def C20_ELIXIR_PREFIX : List UInt8 := {_bytes_lit(prefix)}")
+    # checked constructors
+    dt = srcs.get("date_time.rs")
+    lim = {"MONTH_LO": 0, "MONTH_HI": 0, "HOUR": 0, "MINUTE": 0, "SECOND": 0, "MICRO": 0, "PRECISION": 0, "CLAMP": 0}
+    days = []
+    leap = []
+    if dt is not None:
+        impl = _fn_body(dt, r"impl\s+ElixirDate\s*\{") or ""
+        tn = _strip_ws(_fn_body(impl, r"pub\s+fn\s+try_new\s*\(") or "")
+        mm = re.search(r"if!\((\d+)\.\.=(\d+)\)\.contains\(&month\)\{returnNone;\}", tn)
+        if mm:
+            lim["MONTH_LO"], lim["MONTH_HI"] = num(mm.group(1)), num(mm.group(2))
+        else:
+            broken.append("date_time.rs: ElixirDate::try_new: month range test not found")
+        mm = re.search(r"letmax_day=matchmonth\{(.*?)_=>returnNone,\};", tn)
+        if not mm:
+            broken.append("date_time.rs: ElixirDate::try_new: `match month` not found")
+        else:
+            arms = mm.group(1)
+            for pat, val in re.findall(r"([0-9|]+)=>(\d+|\{ifSelf::is_leap_year\(year\)\{\d+\}else\{\d+\}\}),?", arms):
+                ms = [num(x) for x in pat.split("|")]
+                if val.startswith("{"):
+                    a, b2 = re.findall(r"\{(\d+)\}", val)
+                    for mth in ms:
+                        days.append((mth, num(b2), num(a)))
+                else:
+                    for mth in ms:
+                        days.append((mth, num(val), num(val)))
+            days.sort()
+        if "ifday<1||day>max_day{returnNone;}" not in tn:
+            broken.append("date_time.rs: ElixirDate::try_new: day test `day < 1 || day > max_day` not found")
+        ly = _strip_ws(_fn_body(impl, r"pub\s+fn\s+is_leap_year\s*\(") or "")
+        mm = re.fullmatch(r"\(year%(\d+)==0&&year%(\d+)!=0\)\|\|\(year%(\d+)==0\)", ly)
+        if mm:
+            leap = [num(mm.group(i)) for i in (1, 2, 3)]
+        else:
+            broken.append("date_time.rs: is_leap_year changed shape")
+        timpl = _fn_body(dt, r"impl\s+ElixirTime\s*\{") or ""
+        tt = _strip_ws(_fn_body(timpl, r"pub\s+fn\s+try_new\s*\(") or "")
+        mm = re.search(r"ifhour>(\d+)\|\|minute>(\d+)\|\|second>(\d+)\{returnNone;\}ifmicrosecond>([0-9_]+)\{returnNone;\}ifprecision>(\d+)\{returnNone;\}", tt)
+        if mm:
+            lim["HOUR"], lim["MINUTE"], lim["SECOND"], lim["MICRO"], lim["PRECISION"] = (num(mm.group(i)) for i in range(1, 6))
+        else:
+            broken.append("date_time.rs: ElixirTime::try_new tests changed shape")
+        clamps = re.findall(r"microsecond_precision:precision\.min\((\d+)\)", _strip_ws(dt))
+        if len(clamps) == 4 and len(set(clamps)) == 1:
+            lim["CLAMP"] = num(clamps[0])
+        else:
+            broken.append("date_time.rs: the four unchecked constructors no longer clamp the precision with `.min(n)`")
+        for ty in ("ElixirNaiveDateTime", "ElixirDateTime"):
+            im = _fn_body(dt, r"impl\s+" + ty + r"\s*\{") or ""
+            fn = "try_new" if ty == "ElixirNaiveDateTime" else "try_utc"
+            b = _strip_ws(_fn_body(im, r"pub\s+fn\s+" + fn + r"\s*\(") or "")
+            if not b.startswith("ElixirDate::try_new(year,month,day)?;ElixirTime::try_new(hour,minute,second,microsecond,precision)?;"):
+                broken.append(f"date_time.rs: {ty}::{fn} no longer validates through ElixirDate::try_new and ElixirTime::try_new")
+    for k, v in lim.items():
+        lines.append(f"def C20_{k} : Int := {v}")
+    lines.append("/-- (month, days in a common year, days in a leap year) -/")
+    lines.append("def C20_DAYS : List (Int × Int × Int) := [" + ", ".join(f"({a}, {b}, {c})" for a, b, c in days) + "]")
+    lines.append("def C20_LEAP_RULE : List Int := [" + ", ".join(str(x) for x in leap) + "]")
+    return lines, broken
+
+
+def _const_product(src, name, ty="usize"):
+    """value of `const NAME: ty = a * b * c;` (a product of integer literals), None when the pattern does not match"""
+    m = re.search(r"(?:pub\s+)?const\s+" + name + r"\s*:\s*" + ty + r"\s*=\s*([0-9_]+(?:\s*\*\s*[0-9_]+)*)\s*;", src)
+    if not m:
+        return None
+    v = 1
+    for f in m.group(1).split("*"):
+        v *= int(f.strip().replace("_", ""))
+    return v
+
+
+def _mode_arms(body):
+    """`FrameMode::X => <text up to the arm's end>` for the two modes of a `match self.mode`/`match self` (whitespace removed)"""
+    text = re.sub(r"//[^\n]*", "", body)
+    text = re.sub(r"\s+", "", text)
+    arms = {}
+    for mode in ("Handshake", "Distribution"):
+        i = text.find("FrameMode::" + mode + "=>")
+        if i < 0:
+            return None
+        j = i + len("FrameMode::" + mode + "=>")
+        if j < len(text) and text[j] == "{":
+            depth = 0
+            for k in range(j, len(text)):
+                if text[k] == "{":
+                    depth += 1
+                elif text[k] == "}":
+                    depth -= 1
+                    if depth == 0:
+                        arms[mode] = text[j:k + 1]
+                        break
+        else:
+            k = text.find(",", j)
+            arms[mode] = text[j:k if k >= 0 else len(text)]
+    return arms if len(arms) == 2 else None
+
+
+def _steps(text, marks):
+    """names of the marks (name, literal) found in text, ordered by first position; a missing one is reported"""
+    found = []
+    missing = []
+    for name, lit in marks:
+        i = text.find(lit)
+        if i < 0:
+            missing.append(name)
+        else:
+            found.append((i, name))
+    return [n for _, n in sorted(found)], missing
+
+
+def gen_c05(read, num):
+    """C05 part: the constants of framing.rs / connection.rs / transport.rs the framing model depends on (the two caps, the
+    width of the length prefix as each of the five places that use it has it, the pass-through marker), the order of the steps
+    of `read_framed`, `write_framed` and `receive_message_from_read_half`, and where the timeouts are placed."""
+    broken = []
+    lines = []
+    W = {"u16": 2, "u32": 4}
+    vals = {"FRAMING_MAX": 0, "CONN_MAX": 0, "PASS": 0}
+    psize = {"Handshake": 0, "Distribution": 0}
+    fw = {"Handshake": 0, "Distribution": 0}     # frame_message
+    ww = {"Handshake": 0, "Distribution": 0}     # write_framed
+    rw = {"Handshake": 0, "Distribution": 0}     # read_framed
+    read_steps, write_steps, rh_steps = [], [], []
+    rh_width = 0
+    rh_timeouts = 0
+    rh_tick_continue = False
+    tr_read = tr_write = tr_raw = False
+    timeout_recoverable = False
+    send_raw_cap = False
+    fr = read("crates/edp_client/src/framing.rs")
+    if fr is None:
+        broken.append("framing.rs missing")
+    else:
+        v = _const_product(fr, "MAX_MESSAGE_SIZE")
+        if v is None:
+            broken.append("const MAX_MESSAGE_SIZE: usize = <product>; not found in framing.rs")
+        else:
+            vals["FRAMING_MAX"] = v
+        body = _fn_body(fr, r"pub\s+fn\s+length_prefix_size\s*\(\s*&self\s*\)\s*->\s*usize\s*\{")
+        arms = _mode_arms(body) if body else None
+        if not arms or not all(re.fullmatch(r"[0-9_]+", a) for a in arms.values()):
+            broken.append("FrameMode::length_prefix_size: `FrameMode::Handshake => <n>, FrameMode::Distribution => <n>` not found")
+        else:
+            psize = {k: num(a) for k, a in arms.items()}
+        body = _fn_body(fr, r"pub\s+fn\s+frame_message\s*\(\s*&self\s*,\s*data\s*:\s*&\[u8\]\s*\)\s*->\s*Vec<u8>\s*\{")
+        arms = _mode_arms(body) if body else None
+        if not arms:
+            broken.append("frame_message: match over the two frame modes not found")
+        else:
+            for k, a in arms.items():
+                m = re.search(r"letlen=data\.len\(\)as(u16|u32);.*b\.put_(u16|u32)\(len\);", a)
+                if not m or m.group(1) != m.group(2):
+                    broken.append(f"frame_message/{k}: `let len = data.len() as uN; … b.put_uN(len);` not found")
+                else:
+                    fw[k] = W[m.group(1)]
+            t = re.sub(r"\s+", "", re.sub(r"//[^\n]*", "", body))
+            if "buf.put_slice(data);buf.to_vec()" not in t:
+                broken.append("frame_message no longer ends with `buf.put_slice(data); buf.to_vec()`")
+        body = _fn_body(fr, r"pub\s+async\s+fn\s+write_framed\s*<[^>]*>\s*\(")
+        # _fn_body starts at the first `{` after the header match: the generic parameter list has none
+        arms = _mode_arms(body) if body else None
+        if not arms:
+            broken.append("write_framed: match over the two frame modes not found")
+        else:
+            for k, a in arms.items():
+                m = re.search(r"letlen=data\.len\(\)as(u16|u32);writer\.write_(u16|u32)\(len\)\.await\?;", a)
+                if not m or m.group(1) != m.group(2):
+                    broken.append(f"write_framed/{k}: `let len = data.len() as uN; writer.write_uN(len).await?;` not found")
+                else:
+                    ww[k] = W[m.group(1)]
+            t = re.sub(r"\s+", "", re.sub(r"//[^\n]*", "", body))
+            write_steps, missing = _steps(t, (("len", "matchself.mode{"), ("data", "writer.write_all(data).await?;"),
+                                              ("flush", "writer.flush().await?;")))
+            if missing:
+                broken.append("write_framed: step(s) not found: " + ", ".join(missing))
+            if len(re.findall(r"writer\.", t)) != 4:
+                broken.append("write_framed touches the writer in other places than write_u16/write_u32/write_all/flush")
+        body = _fn_body(fr, r"pub\s+async\s+fn\s+read_framed\s*<[^>]*>\s*\(")
+        arms = _mode_arms(body) if body else None
+        if not arms:
+            broken.append("read_framed: match over the two frame modes not found")
+        else:
+            a = arms["Handshake"]
+            if "letlen=reader.read_u16().await?;" in a and "lenasusize" in a:
+                rw["Handshake"] = 2
+            else:
+                m = re.search(r"letmutlen_bytes=\[0u8;([0-9]+)\];reader\.read_exact\(&mutlen_bytes\)\.await\?;letlen=(u16|u32)::from_be_bytes\(len_bytes\);", a)
+                if m and num(m.group(1)) == W[m.group(2)]:
+                    rw["Handshake"] = W[m.group(2)]
+                else:
+                    broken.append("read_framed/Handshake: length read not recognised")
+            a = arms["Distribution"]
+            m = re.search(r"letmutlen_bytes=\[0u8;([0-9]+)\];reader\.read_exact\(&mutlen_bytes\)\.await\?;letlen=(u16|u32)::from_be_bytes\(len_bytes\);", a)
+            if m and num(m.group(1)) == W[m.group(2)] and "lenasusize" in a:
+                rw["Distribution"] = W[m.group(2)]
+            elif "letlen=reader.read_u32().await?;" in a:
+                rw["Distribution"] = 4
+            else:
+                broken.append("read_framed/Distribution: length read not recognised")
+            t = re.sub(r"\s+", "", re.sub(r"//[^\n]*", "", body))
+            read_steps, missing = _steps(t, (("len", "letlen=matchself.mode{"), ("tick", "iflen==0{"),
+                                             ("cap", "iflen>MAX_MESSAGE_SIZE{"), ("alloc", "letmutbuf=vec![0u8;len];"),
+                                             ("body", "reader.read_exact(&mutbuf).await?;")))
+            if missing:
+                broken.append("read_framed: step(s) not found: " + ", ".join(missing))
+            if not re.search(r"iflen==0\{(?:trace!\([^;]*\);)?returnOk\(Vec::new\(\)\);\}", t):
+                broken.append("read_framed: the zero-length branch is no longer `return Ok(Vec::new())`")
+            if not re.search(r"iflen>MAX_MESSAGE_SIZE\{returnErr\(", t):
+                broken.append("read_framed: the over-cap branch is no longer `return Err(…)`")
+            if not t.endswith("Ok(buf)"):
+                broken.append("read_framed no longer ends with `Ok(buf)`")
+    conn = read("crates/edp_client/src/connection.rs")
+    if conn is None:
+        broken.append("connection.rs missing")
+    else:
+        v = _const_product(conn, "MAX_MESSAGE_SIZE")
+        if v is None:
+            broken.append("const MAX_MESSAGE_SIZE: usize = <product>; not found in connection.rs")
+        else:
+            vals["CONN_MAX"] = v
+        m = re.search(r"const\s+PASS_THROUGH\s*:\s*u8\s*=\s*([0-9_]+)\s*;", conn)
+        if not m:
+            broken.append("const PASS_THROUGH: u8 = <n>; not found in connection.rs")
+        else:
+            vals["PASS"] = num(m.group(1))
+        body = _fn_body(conn, r"pub\s+async\s+fn\s+receive_message_from_read_half\s*\(")
+        if body is None:
+            broken.append("receive_message_from_read_half not found in connection.rs")
+        else:
+            t = re.sub(r"\s+", "", re.sub(r"//[^\n]*", "", body))
+            m = re.search(r"letmutlen_bytes=\[0u8;([0-9]+)\];tokio::time::timeout\(timeout,read_half\.read_exact\(&mutlen_bytes\)\)\.await\.map_err\(\|_\|Error::Timeout\(timeout\)\)\?\?;letlen=(u16|u32)::from_be_bytes\(len_bytes\);", t)
+            if m and num(m.group(1)) == W[m.group(2)]:
+                rh_width = W[m.group(2)]
+            else:
+                broken.append("receive_message_from_read_half: `[0u8; N]` + timeout(read_exact) + `uN::from_be_bytes` not found")
+            rh_steps, missing = _steps(t, (("len", "letlen={"), ("tick", "iflen==0{"), ("cap", "iflen>MAX_MESSAGE_SIZE{"),
+                                           ("alloc", "letmutbuf=vec![0u8;len];"),
+                                           ("body", "tokio::time::timeout(timeout,read_half.read_exact(&mutbuf))"),
+                                           ("marker", "ifpass_through_marker!=PASS_THROUGH{"),
+                                           ("decode", "decoder::decode_with_trailing(control_and_payload)?")))
+            if missing:
+                broken.append("receive_message_from_read_half: step(s) not found: " + ", ".join(missing))
+            rh_timeouts = len(re.findall(r"tokio::time::timeout\(timeout,read_half\.read_exact\(", t))
+            if len(re.findall(r"read_half\.", t)) != rh_timeouts:
+                broken.append("receive_message_from_read_half reads from the socket outside `timeout(timeout, read_half.read_exact(..))`")
+            rh_tick_continue = bool(re.search(r"iflen==0\{(?:trace!\([^;]*\);)?continue;\}", t)) and t.startswith("loop{")
+            if "letpass_through_marker=buf[0];" not in t or "letcontrol_and_payload=&buf[1..];" not in t:
+                broken.append("receive_message_from_read_half: marker = buf[0], rest = &buf[1..] not found")
+        body = _fn_body(conn, r"pub\s+async\s+fn\s+send_raw\s*\(")
+        if body is not None:
+            t = re.sub(r"\s+", "", body)
+            send_raw_cap = "ifdata.len()>MAX_MESSAGE_SIZE{returnErr(Error::MessageTooLarge{" in t
+    tr = read("crates/edp_client/src/transport.rs")
+    if tr is None:
+        broken.append("transport.rs missing")
+    else:
+        t = re.sub(r"\s+", "", re.sub(r"//[^\n]*", "", tr))
+        tr_read = "tokio::time::timeout(self.timeout,self.deframer.read_framed(stream)).await.map_err(|_|Error::Timeout(self.timeout))?.map_err(Error::Io)" in t
+        tr_write = "tokio::time::timeout(self.timeout,self.framer.write_framed(stream,data)).await.map_err(|_|Error::Timeout(self.timeout))?.map_err(Error::Io)" in t
+        tr_raw = "tokio::time::timeout(self.timeout,async{stream.write_all(data).await?;stream.flush().await}).await.map_err(|_|Error::Timeout(self.timeout))?.map_err(Error::Io)" in t
+        if not (tr_read and tr_write and tr_raw):
+            broken.append("transport.rs: read/write/write_raw are no longer `timeout(self.timeout, <framed op>)` mapped to Error::Timeout / Error::Io")
+        if "framer:MessageFramer::new(FrameMode::Handshake),deframer:MessageDeframer::new(FrameMode::Handshake)," not in t:
+            broken.append("FramedTransport::new no longer starts both halves in handshake mode")
+        if "pubfnset_frame_mode(&mutself,mode:FrameMode){self.framer.set_mode(mode);self.deframer.set_mode(mode);}" not in t:
+            broken.append("FramedTransport::set_frame_mode no longer sets framer and deframer to the same mode")
+    er = read("crates/edp_client/src/errors.rs")
+    if er is None:
+        broken.append("errors.rs missing")
+    else:
+        body = _fn_body(er, r"pub\s+fn\s+is_recoverable\s*\(\s*&self\s*\)\s*->\s*bool\s*\{")
+        if body is None:
+            broken.append("Error::is_recoverable not found")
+        else:
+            t = re.sub(r"\s+", "", body)
+            timeout_recoverable = t.startswith("matches!(self,") and "Error::Timeout(_)" in t
+
+    def strs(xs):
+        return "[" + ", ".join('"' + x + '"' for x in xs) + "]"
+
+    def b(x):
+        return "true" if x else "false"
+
+    lines.append("/-- `MAX_MESSAGE_SIZE` of crates/edp_client/src/framing.rs (cap of `MessageDeframer::read_framed`) -/")
+    lines.append(f"def FRAMING_MAX_MESSAGE_SIZE : Nat := {vals['FRAMING_MAX']}")
+    lines.append("/-- `MAX_MESSAGE_SIZE` of crates/edp_client/src/connection.rs (cap of `receive_message_from_read_half` and `send_raw`) -/")
+    lines.append(f"def CONN_MAX_MESSAGE_SIZE : Nat := {vals['CONN_MAX']}")
+    lines.append("/-- `PASS_THROUGH` of connection.rs -/")
+    lines.append(f"def CONN_PASS_THROUGH : Nat := {vals['PASS']}")
+    lines.append("/-- width in bytes of the length prefix per frame mode (handshake, distribution) as each place of framing.rs has it:")
+    lines.append("`FrameMode::length_prefix_size`, `frame_message` (`as uN` + `put_uN`), `write_framed` (`as uN` + `write_uN`),")
+    lines.append("`read_framed` (`read_u16` / `[0u8; N]` + `uN::from_be_bytes`) -/")
+    lines.append(f"def FRAME_PREFIX_SIZE : Nat × Nat := ({psize['Handshake']}, {psize['Distribution']})")
+    lines.append(f"def FRAME_MESSAGE_WIDTH : Nat × Nat := ({fw['Handshake']}, {fw['Distribution']})")
+    lines.append(f"def WRITE_FRAMED_WIDTH : Nat × Nat := ({ww['Handshake']}, {ww['Distribution']})")
+    lines.append(f"def READ_FRAMED_WIDTH : Nat × Nat := ({rw['Handshake']}, {rw['Distribution']})")
+    lines.append("/-- width of the length prefix read by `Connection::receive_message_from_read_half` -/")
+    lines.append(f"def RH_PREFIX_WIDTH : Nat := {rh_width}")
+    lines.append("/-- the steps of `read_framed`, `write_framed`, `receive_message_from_read_half` in textual order -/")
+    lines.append(f"def READ_FRAMED_STEPS : List String := {strs(read_steps)}")
+    lines.append(f"def WRITE_FRAMED_STEPS : List String := {strs(write_steps)}")
+    lines.append(f"def RH_STEPS : List String := {strs(rh_steps)}")
+    lines.append("/-- number of `timeout(timeout, read_half.read_exact(..))` in the second copy (every socket read is one of them) -/")
+    lines.append(f"def RH_TIMEOUT_READS : Nat := {rh_timeouts}")
+    lines.append("/-- the second copy is a `loop` whose zero-length branch is `continue` -/")
+    lines.append(f"def RH_TICK_CONTINUES : Bool := {b(rh_tick_continue)}")
+    lines.append("/-- `FramedTransport::read` / `write` / `write_raw` are `timeout(self.timeout, <the framed operation>)` -/")
+    lines.append(f"def TRANSPORT_OPS_UNDER_TIMEOUT : Bool := {b(tr_read and tr_write and tr_raw)}")
+    lines.append("/-- `Error::is_recoverable` lists `Error::Timeout(_)` -/")
+    lines.append(f"def TIMEOUT_IS_RECOVERABLE : Bool := {b(timeout_recoverable)}")
+    lines.append("/-- `Connection::send_raw` refuses `data.len() > MAX_MESSAGE_SIZE` before writing -/")
+    lines.append(f"def SEND_RAW_CHECKS_CAP : Bool := {b(send_raw_cap)}")
+    lines.append("")
+    return lines, broken
+
+
+def gen_c08(read, num):
+    """C08 part: the constructor functions of `impl ControlMessage` (`pub fn name(params..) -> Self { ControlMessage::V { inits } }`),
+    i.e. every `pub fn` of that impl that returns `Self`: name, parameter names in order, the variant built, and which
+    parameter initialises which field."""
+    broken = []
+    lines = []
+    ctors = []
+    src = read("crates/edp_client/src/control.rs")
+    if src is None:
+        broken.append("control.rs missing")
+    else:
+        body = _fn_body(src, r"\nimpl\s+ControlMessage\s*\{")
+        if body is None:
+            broken.append("impl ControlMessage { .. } not found in control.rs")
+        else:
+            text = re.sub(r"//[^\n]*", "", body)
+            for m in re.finditer(r"pub\s+fn\s+([a-z_0-9]+)\s*\(([^)]*)\)\s*->\s*Self\s*\{", text):
+                name = m.group(1)
+                params = []
+                ok = True
+                for part in [x.strip() for x in m.group(2).split(",") if x.strip()]:
+                    pm = re.fullmatch(r"([a-z_0-9]+)\s*:\s*OwnedTerm", part)
+                    if not pm:
+                        ok = False
+                        break
+                    params.append(pm.group(1))
+                if not ok:
+                    if "self" in m.group(2):
+                        continue    # a method (into_term), not a constructor
+                    broken.append(f"constructor {name}: a parameter is not `<name>: OwnedTerm`")
+                    continue
+                fb = _fn_body(text[m.start():], r"pub\s+fn\s+" + name + r"\s*\([^)]*\)\s*->\s*Self\s*\{")
+                t = re.sub(r"\s+", "", fb or "")
+                bm = re.fullmatch(r"ControlMessage::([A-Za-z0-9]+)\{([^{}]*)\}", t)
+                if not bm:
+                    broken.append(f"constructor {name}: body is not `ControlMessage::V {{ field inits }}`")
+                    continue
+                inits = []
+                for it in [x for x in bm.group(2).split(",") if x]:
+                    im = re.fullmatch(r"([a-z_0-9]+)(?::([a-z_0-9]+))?", it)
+                    if not im:
+                        broken.append(f"constructor {name}: initialiser `{it}` is not `field` or `field: param`")
+                        inits = None
+                        break
+                    inits.append((im.group(1), im.group(2) or im.group(1)))
+                if inits is None:
+                    continue
+                ctors.append((name, params, bm.group(1), inits))
+            if not ctors:
+                broken.append("no constructor (`pub fn .. -> Self`) found in impl ControlMessage")
+
+    def strs(xs):
+        return "[" + ", ".join('"' + x + '"' for x in xs) + "]"
+
+    lines.append("/-- the constructors of `impl ControlMessage` in control.rs: (name, parameters, variant, (field, parameter) initialisers) -/")
+    lines.append("def CONTROL_CONSTRUCTORS : List (String × List String × String × List (String × String)) := [")
+    rows = []
+    for name, params, variant, inits in ctors:
+        ins = "[" + ", ".join(f'("{f}", "{q}")' for f, q in inits) + "]"
+        rows.append(f'  ("{name}", {strs(params)}, "{variant}", {ins})')
+    lines.append(",\n".join(rows) + "]")
+    lines.append("")
+    return lines, broken
+
+
+def gen_c10(read, num):
+    """C10 (and C13's conversion clause) part: the three identifier structs of types.rs — their fields, what they derive, which
+    fields `eq` / `hash` / `cmp` look at, what `with_local_ext_bytes` stores — the arms of `BorrowedTerm::to_owned`,
+    `From<&OwnedTerm>` and `is_borrowed` in borrowed.rs, how the three identifier encoders replay the preserved bytes, and what
+    `parse_local_ext` keeps.  Impl/Convert.lean transcribes exactly this."""
+    broken = []
+    lines = []
+    types = read("crates/erltf/src/types.rs")
+    bor = read("crates/erltf/src/borrowed.rs")
+    enc = read("crates/erltf/src/encoder.rs")
+    dec = read("crates/erltf/src/decoder.rs")
+    structs = {}
+    variants, to_arms, from_arms, isb_arms, id_copy, enc_replay, local_keep = [], [], [], [], [], [], []
+    if types is None or bor is None or enc is None or dec is None:
+        broken.append("types.rs, borrowed.rs, encoder.rs or decoder.rs missing")
+    else:
+        types_t, bor_t, enc_t, dec_t = _strip(types), _strip(bor), _strip(enc), _strip(dec)
+        for name in ("ExternalPid", "ExternalPort", "ExternalReference"):
+            m = re.search(r"#\[derive\(([^)]*)\)\]\s*pub\s+struct\s+" + name + r"\s*\{([^}]*)\}", types_t)
+            if not m:
+                broken.append(f"struct {name} with its derive list not found in types.rs")
+                continue
+            derives = [d.strip() for d in m.group(1).split(",") if d.strip()]
+            fields = re.findall(r"pub\s+([a-z_0-9]+)\s*:", m.group(2))
+            manual_clone = bool(re.search(r"impl\s+Clone\s+for\s+" + name + r"\b", types_t))
+            eqb = _fn_body(types_t, r"impl\s+PartialEq\s+for\s+" + name + r"\s*\{") or ""
+            eq_fields = re.findall(r"self\.([a-z_0-9]+)\s*==\s*other\.\1", eqb)
+            hb = _fn_body(types_t, r"impl\s+Hash\s+for\s+" + name + r"\s*\{") or ""
+            hash_fields = re.findall(r"self\.([a-z_0-9]+)\.hash\(state\)", hb)
+            ob = _fn_body(types_t, r"impl\s+Ord\s+for\s+" + name + r"\s*\{") or ""
+            mo = re.search(r"\(([^()]*)\)\s*\.cmp\(", ob)
+            ord_fields = re.findall(r"self\.([a-z_0-9]+)", mo.group(1)) if mo else []
+            if not eqb or not hb or not mo:
+                broken.append(f"{name}: hand-written PartialEq / Hash / Ord (tuple comparison) not found")
+            ib = _fn_body(types_t, r"impl\s+" + name + r"\s*\{") or ""
+            wb = _fn_body(ib, r"fn\s+with_local_ext_bytes\s*\(") or ""
+            keeps = bool(re.search(r"local_ext_bytes\s*:\s*Some\(\s*local_ext_bytes\.into\(\)\s*\)", wb))
+            nb = _fn_body(ib, r"fn\s+new\s*\(") or ""
+            new_none = bool(re.search(r"local_ext_bytes\s*:\s*None", nb))
+            structs[name] = (fields, derives, manual_clone, eq_fields, hash_fields, ord_fields, keeps, new_none)
+        em = re.search(r"pub\s+enum\s+BorrowedTerm\s*<'a>\s*\{", bor_t)
+        eb = _fn_body(bor_t, r"pub\s+enum\s+BorrowedTerm\s*<'a>\s*\{") if em else None
+        if eb is None:
+            broken.append("enum BorrowedTerm not found in borrowed.rs")
+        else:
+            flat = re.sub(r"\{[^{}]*\}", "", eb)
+            variants = re.findall(r"\b([A-Z][A-Za-z]+)\s*(?:\([^)]*\))?\s*,", flat + ",")
+        tb = _fn_body(bor_t, r"pub\s+fn\s+to_owned\s*\(\s*&self\s*\)\s*->\s*OwnedTerm")
+        if tb is None:
+            broken.append("fn to_owned of BorrowedTerm not found")
+        else:
+            to_arms = re.findall(r"BorrowedTerm::([A-Z][A-Za-z]+)\s*(?:\([^)]*\)|\{[^}]*\})?\s*=>\s*(?:\{\s*)?OwnedTerm::([A-Z][A-Za-z]+)", tb)
+            for v in ("Pid", "Port", "Reference"):
+                if re.search(r"BorrowedTerm::" + v + r"\(\s*([a-z])\s*\)\s*=>\s*OwnedTerm::" + v + r"\(\s*\1\.clone\(\)\s*\)", tb):
+                    id_copy.append("to_owned:" + v + ":clone")
+        fb = _fn_body(bor_t, r"impl\s*<'a>\s*From\s*<\s*&'a\s+OwnedTerm\s*>\s*for\s+BorrowedTerm\s*<'a>\s*\{")
+        if fb is None:
+            broken.append("impl From<&OwnedTerm> for BorrowedTerm not found")
+        else:
+            from_arms = re.findall(r"OwnedTerm::([A-Z][A-Za-z]+)\s*(?:\([^)]*\)|\{[^}]*\})?\s*=>\s*(?:\{\s*)?BorrowedTerm::([A-Z][A-Za-z]+)", fb)
+            for v in ("Pid", "Port", "Reference"):
+                if re.search(r"OwnedTerm::" + v + r"\(\s*([a-z])\s*\)\s*=>\s*BorrowedTerm::" + v + r"\(\s*\1\.clone\(\)\s*\)", fb):
+                    id_copy.append("from:" + v + ":clone")
+        ibb = _fn_body(bor_t, r"pub\s+fn\s+is_borrowed\s*\(\s*&self\s*\)\s*->\s*bool")
+        if ibb is None:
+            broken.append("fn is_borrowed not found")
+        else:
+            isb_arms = re.findall(r"BorrowedTerm::([A-Z][A-Za-z]+)\s*(?:\([^)]*\)|\{[^}]*\})?\s*=>", ibb)
+            if not re.search(r"_\s*=>\s*false", ibb):
+                broken.append("is_borrowed: `_ => false` not found")
+        for fn, field_owner in (("encode_pid_impl", "pid"), ("encode_port_impl", "port"), ("encode_reference_impl", "ref_")):
+            b = _fn_body(enc_t, r"fn\s+" + fn + r"\s*\(")
+            if b is None:
+                broken.append(f"fn {fn} not found in encoder.rs")
+                continue
+            flat = re.sub(r"\s+", "", b)
+            m = re.match(r"ifletSome\((?:ref)?([a-z_]+)\)=&?" + field_owner + r"\.local_ext_bytes\{buf\.put_u8\(LOCAL_EXT\);buf\.put_slice\(\1\);\}else\{", flat)
+            if m:
+                enc_replay.append(fn)
+        lb = _fn_body(dec_t, r"fn\s+parse_local_ext\s*<")
+        if lb is None:
+            broken.append("fn parse_local_ext not found in decoder.rs")
+        else:
+            flat = re.sub(r"\s+", "", lb)
+            for need in ("letstart=input;", "be_u64(input)?", "letnested_len=input.len()-remaining.len();", "letlocal_ext_bytes_len=8+nested_len;",
+                         "letlocal_ext_bytes=start[..local_ext_bytes_len].to_vec();"):
+                if need not in flat:
+                    broken.append(f"parse_local_ext: `{need}` not found")
+            local_keep = re.findall(r"OwnedTerm::([A-Z][a-z]+)\([a-z]+\)=>\{?OwnedTerm::\1\(External\1::with_local_ext_bytes\(", flat)
+            if not re.search(r"_=>term,", flat):
+                broken.append("parse_local_ext: `_ => term` not found")
+
+    def strs(xs):
+        return "[" + ", ".join('"' + x + '"' for x in xs) + "]"
+
+    def pairs(xs):
+        return "[" + ", ".join('("' + a + '", "' + b + '")' for a, b in xs) + "]"
+
+    for name, short in (("ExternalPid", "PID"), ("ExternalPort", "PORT"), ("ExternalReference", "REF")):
+        f, d, mc, eqf, hf, of, keeps, new_none = structs.get(name, ([], [], True, [], [], [], False, False))
+        lines.append(f"/-- types.rs `{name}`: fields, derive list, hand-written `impl Clone`?, fields compared by `eq`, fed to `hash`, compared by `cmp`,")
+        lines.append("`with_local_ext_bytes` stores its argument in `local_ext_bytes`?, `new` leaves it `None`? -/")
+        lines.append(f"def C10_{short}_FIELDS : List String := {strs(f)}")
+        lines.append(f"def C10_{short}_DERIVES : List String := {strs(d)}")
+        lines.append(f"def C10_{short}_MANUAL_CLONE : Bool := {'true' if mc else 'false'}")
+        lines.append(f"def C10_{short}_EQ_FIELDS : List String := {strs(eqf)}")
+        lines.append(f"def C10_{short}_HASH_FIELDS : List String := {strs(hf)}")
+        lines.append(f"def C10_{short}_ORD_FIELDS : List String := {strs(of)}")
+        lines.append(f"def C10_{short}_KEEPS_LOCAL : Bool := {'true' if keeps else 'false'}")
+        lines.append(f"def C10_{short}_NEW_PLAIN : Bool := {'true' if new_none else 'false'}")
+    lines.append("/-- the variants of `enum BorrowedTerm`, in declaration order -/")
+    lines.append(f"def C10_BORROWED_VARIANTS : List String := {strs(variants)}")
+    lines.append("/-- `BorrowedTerm::to_owned`: (matched variant, constructed `OwnedTerm` variant) per arm, in textual order -/")
+    lines.append(f"def C10_TO_OWNED_ARMS : List (String × String) := {pairs(to_arms)}")
+    lines.append("/-- `From<&OwnedTerm> for BorrowedTerm`: (matched variant, constructed variant) per arm -/")
+    lines.append(f"def C10_FROM_OWNED_ARMS : List (String × String) := {pairs(from_arms)}")
+    lines.append("/-- the identifier arms of both conversions that are `X(p) => X(p.clone())` -/")
+    lines.append(f"def C10_IDENT_COPIES : List String := {strs(id_copy)}")
+    lines.append("/-- variants `is_borrowed` has an arm for (everything else: `_ => false`) -/")
+    lines.append(f"def C10_IS_BORROWED_ARMS : List String := {strs(isb_arms)}")
+    lines.append("/-- identifier encoders that begin with `if let Some(b) = x.local_ext_bytes { put_u8(LOCAL_EXT); put_slice(b) } else {` -/")
+    lines.append(f"def C10_ENC_REPLAY : List String := {strs(enc_replay)}")
+    lines.append("/-- the kinds `parse_local_ext` rebuilds with `with_local_ext_bytes(.., start[..8 + nested_len])` (everything else: `_ => term`) -/")
+    lines.append(f"def C10_LOCAL_KEEP : List String := {strs(local_keep)}")
+    lines.append("")
+    return lines, broken
+
+
 def run(read, emit, num):
     body = "namespace Edp.Gen\n\n"
     broken = []
-    for part in (gen_c16, gen_c09, gen_c04, gen_c15, gen_c13, gen_c18, gen_c19, gen_state):
+    for part in (gen_c16, gen_c09, gen_c04, gen_c15, gen_c13, gen_c18, gen_c19, gen_state, gen_c20, gen_c05, gen_c08, gen_c10):
         ls, br = part(read, num)
         body += "\n".join(ls) + "\n"
         broken += br
